@@ -343,3 +343,32 @@ Proof.
     [|reflexivity].
   rewrite <- app_assoc. reflexivity.
 Qed.
+
+
+(* ---------- the oracle's boolean predicates reflect the predicates of the theorems ---------- *)
+Lemma no_prevb_iff ver hist : no_prevb ver hist = true <-> no_prev ver hist.
+Proof.
+  unfold no_prevb, no_prev. rewrite forallb_forall. split.
+  - intros H h Hin Hlt. specialize (H h Hin). lia.
+  - intros H h Hin. specialize (H h Hin). lia.
+Qed.
+
+Lemma is_prevb_iff ver hist v p vis :
+  is_prevb ver hist v p vis = true <->
+  exists o, In o hist /\ e_ver o = v /\ e_pay o = p /\ e_vis o = vis /\ is_prev ver hist o.
+Proof.
+  unfold is_prevb, is_prev. split.
+  - intro H. apply andb_prop in H as [H Hall]. apply andb_prop in H as [Hex Hlt].
+    apply existsb_exists in Hex as (o & Hin & Ho).
+    apply andb_prop in Ho as [Ho Hvis]. apply andb_prop in Ho as [Hv Hp].
+    apply Z.eqb_eq in Hv. apply Z.eqb_eq in Hp. apply Bool.eqb_prop in Hvis.
+    exists o. repeat split; auto; try lia.
+    rewrite forallb_forall in Hall. intros h Hh Hhv. specialize (Hall h Hh). lia.
+  - intros (o & Hin & Hv & Hp & Hvis & _ & Hlt & Hall).
+    apply andb_true_intro. split; [apply andb_true_intro; split|].
+    + apply existsb_exists. exists o. split; [exact Hin|].
+      rewrite Hv, Hp, Hvis, !Z.eqb_refl, Bool.eqb_reflx. reflexivity.
+    + lia.
+    + rewrite forallb_forall. intros h Hh. specialize (Hall h Hh).
+      destruct (e_ver h <? ver) eqn:E; [|reflexivity]. cbn. lia.
+Qed.
